@@ -238,6 +238,14 @@ func checkC02(w *World, r *Recorder) propInfo {
 	}
 	messageWriters(w, r, "C02-V5")
 	c20Payload(w, r, "C02-V6")
+	// V7: what Verify checks after a decode is the envelope as go-cose decoded
+	// it: UnmarshalCOSE leaves it 'decoded here' or fresh/nil, never modified
+	// afterwards (the C19 typestate of UnmarshalCOSE run again under this
+	// property — a payload, signature or header rewritten between decode and
+	// verification changes what "the message carries")
+	importRules(w, r, checkC19, "C02-V7", func(o *Oblig) bool {
+		return (o.Rule == "C19-Y1" || o.Rule == "C19-Y2") && strings.HasPrefix(o.Construct, "UnmarshalCOSE#")
+	})
 	auditCoseVerify(w, r, "C02-audit")
 	auditCoseUnmarshal(w, r, "C02-audit")
 	r.Floor("C02-V1", 1)
@@ -664,6 +672,12 @@ func checkC19(w *World, r *Recorder) propInfo {
 	// claims: the custom marshallers change nothing in the encoded copy beyond
 	// nil-ing an empty component container (C09-I1)
 	importRules(w, r, checkC09, "C19-Y7", func(o *Oblig) bool { return o.Rule == "C09-I1" })
+	// Y8: a token this library signs is one it can decode ("equal to the
+	// decoding of the payload", "two independently valid tokens"): the decoder
+	// mode must accept every encoding the encoder can produce. Limits below the
+	// library defaults are violations; the defaults themselves are the known
+	// finding D9 seen from this property.
+	ruleOptions(w, r, "C19-Y8", "DecOptions", "own-encodings")
 	r.Floor("C19-Y5", 1)
 	return info
 }
